@@ -30,7 +30,7 @@ ASSUMPTIONS = [
     'a corrupted PEL that is still self-consistent may legitimately decode - only proper prefixes of '
     'well-formed PELs must be rejected',
     'TracedStream subclasses the real DataStream and calls super(), so the real range checks run',
-    'hang detection: 5 s alarm per in-process decode, 60 s per subprocess',
+    'hang detection: 20 s alarm per in-process decode, 60 s per subprocess',
 ]
 CASE_TIMEOUT = 600
 PY = '/venv/bin/python'
